@@ -117,6 +117,9 @@ type seqOp struct {
 	Inv  bool              `json:"inv,omitempty"`
 	Put  string            `json:"put,omitempty"`
 	Tpl  []piece           `json:"tpl,omitempty"`
+	// the entry is written through the Service (ImportComponentConfiguration) instead of
+	// behind its back (file rewritten)
+	Import bool `json:"import,omitempty"`
 }
 
 type seqIn struct {
@@ -148,6 +151,16 @@ func request(svc *local.Service, path string, vars map[string]string) *string {
 	return &out
 }
 
+// the unprocessed lookup of the same path
+func exists(svc *local.Service, path string) bool {
+	q, err := componentcfg.NewQuery(path)
+	if err != nil || q == nil {
+		return false
+	}
+	_, err = svc.GetComponentConfiguration(q)
+	return err == nil
+}
+
 func caseSeq(dir string, in seqIn) gen.Case {
 	content := map[string]string{}
 	var paths []string
@@ -172,10 +185,11 @@ func caseSeq(dir string, in seqIn) gen.Case {
 	if err != nil {
 		panic(err)
 	}
-	var opTerms, obsTerms, coldTerms []string
+	var opTerms, obsTerms, coldTerms, rawTerms []string
 	type obsJ struct {
 		Warm *string `json:"warm"`
 		Cold *string `json:"cold"`
+		Raw  bool    `json:"unprocessed_ok"`
 	}
 	var obs []obsJ
 	for _, op := range in.Ops {
@@ -185,15 +199,25 @@ func caseSeq(dir string, in seqIn) gen.Case {
 			opTerms = append(opTerms, "OInv")
 			obsTerms = append(obsTerms, gen.None())
 			coldTerms = append(coldTerms, gen.None())
+			rawTerms = append(rawTerms, gen.Bool(false))
 			obs = append(obs, obsJ{})
 		case op.Put != "":
 			content[op.Put] = tplSource(op.Tpl)
+			if op.Import {
+				if q, err := componentcfg.NewQuery(op.Put); err == nil && q != nil {
+					warm.ImportComponentConfiguration(q, content[op.Put], false)
+				}
+			}
+			// (also after an import: the file backend re-serialises the whole tree and does not
+			// keep every string byte for byte - leading newlines; the entries are what we say)
 			write()
 			opTerms = append(opTerms, fmt.Sprintf("OPut %s %s", gen.Str(op.Put), tplTerm(op.Tpl)))
 			obsTerms = append(obsTerms, gen.None())
 			coldTerms = append(coldTerms, gen.None())
+			rawTerms = append(rawTerms, gen.Bool(false))
 			obs = append(obs, obsJ{})
 		default:
+			ex := exists(warm, op.Req)
 			w := request(warm, op.Req, op.Vars)
 			fresh, err := local.NewService("file://" + f)
 			if err != nil {
@@ -203,14 +227,15 @@ func caseSeq(dir string, in seqIn) gen.Case {
 			opTerms = append(opTerms, fmt.Sprintf("OReq %s %s", gen.Str(op.Req), gen.KVs(op.Vars)))
 			obsTerms = append(obsTerms, optTerm(w))
 			coldTerms = append(coldTerms, optTerm(c))
-			obs = append(obs, obsJ{w, c})
+			rawTerms = append(rawTerms, gen.Bool(ex))
+			obs = append(obs, obsJ{w, c, ex})
 		}
 	}
 	var be []string
 	for _, p := range paths {
 		be = append(be, gen.Pair(gen.Str(p), tplTerm(in.Backend[p])))
 	}
-	return gen.Case{Term: fmt.Sprintf("CSeq %s %s %s %s", gen.List(be), gen.List(opTerms), gen.List(obsTerms), gen.List(coldTerms)),
+	return gen.Case{Term: fmt.Sprintf("CSeq %s %s %s %s %s", gen.List(be), gen.List(opTerms), gen.List(obsTerms), gen.List(coldTerms), gen.List(rawTerms)),
 		Kind: "seq", Input: in, Obs: obs}
 }
 
@@ -354,13 +379,34 @@ func genSeq(r *gen.Rand) seqIn {
 			if r.Chance(1, 5) {
 				p = dirs[0] + "/new"
 			}
-			in.Ops = append(in.Ops, seqOp{Put: p, Tpl: genTpl(r, r.Chance(2, 3))})
+			in.Ops = append(in.Ops, seqOp{Put: p, Tpl: genTpl(r, r.Chance(2, 3)), Import: r.Chance(1, 3)})
 		default:
 			p := r.Pick(paths)
 			if r.Chance(1, 15) {
 				p = dirs[0] + r.Pick([]string{"/new", "/nosuch"})
 			}
 			in.Ops = append(in.Ops, seqOp{Req: p, Vars: sets[r.Intn(len(sets))]})
+		}
+	}
+	// aimed: an entry asked for while it is missing (perhaps with a fallback candidate present),
+	// created later - through the Service or behind its back - and asked for again, with or
+	// without an invalidation in between
+	if r.Chance(1, 3) {
+		late := dirs[0] + "/" + r.Pick([]string{"late", "new", "plain2"})
+		if _, there := in.Backend[late]; !there {
+			pos := func() int { return r.Intn(len(in.Ops) + 1) }
+			ins := func(i int, op seqOp) {
+				in.Ops = append(in.Ops[:i], append([]seqOp{op}, in.Ops[i:]...)...)
+			}
+			i := pos()
+			ins(i, seqOp{Req: late, Vars: sets[r.Intn(len(sets))]})
+			j := i + 1 + r.Intn(len(in.Ops)-i)
+			ins(j, seqOp{Put: late, Tpl: genTpl(r, r.Chance(1, 2)), Import: r.Chance(1, 2)})
+			k := j + 1 + r.Intn(len(in.Ops)-j)
+			ins(k, seqOp{Req: late, Vars: sets[r.Intn(len(sets))]})
+			if r.Chance(1, 2) {
+				ins(len(in.Ops), seqOp{Req: late, Vars: sets[r.Intn(len(sets))]})
+			}
 		}
 	}
 	return in
